@@ -332,7 +332,150 @@ def _list_getitem(interp, obj, k):
 
 
 def build_cases(tier="quick"):
-    return insn_len_cases() + jumpdest_cases() + valid_jumpdests_cases() + decode_past_end_cases()
+    return insn_len_cases() + jumpdest_cases() + valid_jumpdests_cases() + decode_past_end_cases() + jump_check_cases()
+
+
+# --------------------------------------------------------------------------------------
+# jump-destination checks in sevm.py: JUMP arm, concrete-condition JUMPI arm, SEVM.jumpi
+
+
+class GhostDests:
+    """ex.pgm.valid_jumpdests(): an arbitrary set of offsets (uninterpreted membership predicate)"""
+
+    VALID = z3.Function("is_valid_jumpdest", z3.IntSort(), z3.BoolSort())
+
+    def __init__(self):
+        self.queries = 0
+
+
+def _ghost_dests_contains(interp, container, item):
+    container.queries += 1
+    return interp.truth(SymBool(GhostDests.VALID(iexpr(item))))
+
+
+def replay_jumps(r):
+    """real SEVM on small programs: a jump may only continue at a JUMPDEST instruction boundary"""
+    from contracts.common import CALLVALUE, mk_ex, mk_sevm
+    from halmos.exceptions import InvalidJumpDestError
+
+    def run(code):
+        sevm = mk_sevm()
+        outs = list(sevm.run(mk_ex(sevm, bytes(code))))
+        return [(type(o.context.output.error).__name__ if o.context.output.error else "ok", o.context.output.return_scheme, [str(c) for c in o.path.conditions]) for o in outs]
+
+    STOP, JUMP, JUMPI, JUMPDEST, PUSH1, CALLVALUE_OP, RETURN, INVALID = 0x00, 0x56, 0x57, 0x5B, 0x60, 0x34, 0xF3, 0xFE
+    probs = []
+    # (program, description, predicate over the outcomes)
+    progs = [
+        ([PUSH1, 4, JUMP, INVALID, JUMPDEST, STOP], "JUMP to a JUMPDEST", lambda o: [x[0] for x in o] == ["ok"]),
+        ([PUSH1, 3, JUMP, STOP, JUMPDEST, STOP], "JUMP to a non-JUMPDEST opcode", lambda o: [x[0] for x in o] == ["InvalidJumpDestError"]),
+        ([PUSH1, 1, JUMP, STOP], "JUMP into PUSH data (0x01 is the operand)", lambda o: [x[0] for x in o] == ["InvalidJumpDestError"]),
+        ([PUSH1, 0x5B, PUSH1, 1, JUMP, STOP], "JUMP onto a 0x5b byte that is PUSH data", lambda o: [x[0] for x in o] == ["InvalidJumpDestError"]),
+        ([PUSH1, 9, JUMP, STOP], "JUMP past the end of the code", lambda o: [x[0] for x in o] == ["InvalidJumpDestError"]),
+        ([PUSH1, 1, PUSH1, 6, JUMPI, INVALID, JUMPDEST, STOP], "JUMPI (true) to a JUMPDEST", lambda o: [x[0] for x in o] == ["ok"]),
+        ([PUSH1, 1, PUSH1, 5, JUMPI, STOP, JUMPDEST, STOP], "JUMPI (true) to a non-JUMPDEST", lambda o: [x[0] for x in o] == ["InvalidJumpDestError"]),
+        ([PUSH1, 0, PUSH1, 5, JUMPI, STOP, JUMPDEST, STOP], "JUMPI (false) with an invalid target falls through", lambda o: [x[0] for x in o] == ["ok"]),
+        ([CALLVALUE_OP, PUSH1, 5, JUMPI, STOP, JUMPDEST, STOP], "symbolic JUMPI to a JUMPDEST", lambda o: sorted(x[0] for x in o) == ["ok", "ok"]),
+        ([CALLVALUE_OP, PUSH1, 4, JUMPI, STOP, JUMPDEST, STOP], "symbolic JUMPI to a non-JUMPDEST: only the jumping direction fails", lambda o: sorted(x[0] for x in o) == ["InvalidJumpDestError", "ok"] and all(x[2] for x in o)),
+        ([CALLVALUE_OP, PUSH1, 2, JUMPI, STOP], "symbolic JUMPI into PUSH data", lambda o: sorted(x[0] for x in o) == ["InvalidJumpDestError", "ok"]),
+        ([CALLVALUE_OP, PUSH1, 0x40, JUMPI, STOP], "symbolic JUMPI past the end", lambda o: sorted(x[0] for x in o) == ["InvalidJumpDestError", "ok"]),
+    ]
+    for code, desc, pred in progs:
+        try:
+            o = run(code)
+        except Exception as e:  # noqa
+            return {"reproduced": True, "detail": f"{desc}: program {bytes(code).hex()} raised {type(e).__name__}: {e}", "inputs": bytes(code).hex()}
+        if not pred(o):
+            return {"reproduced": True, "detail": f"{desc}: program {bytes(code).hex()} gives paths {o}", "inputs": bytes(code).hex()}
+    return {"reproduced": False, "detail": "real SEVM handles the replay programs as the EVM does"}
+
+
+def jump_check_cases():
+    from contracts import jumpi_unit as JU
+    from contracts.c06 import mk_bv, run_dispatch_chain, select_arm
+    import halmos.bitvec as hb
+    import halmos.sevm as hs
+    from halmos.exceptions import InvalidJumpDestError
+    from pyvc.interp import Env
+
+    out = []
+
+    # --- SEVM.jumpi (symbolic condition): every solver answer, both kinds of target
+    for ct in JU.RES:
+        for cf in JU.RES:
+
+            def harness(interp, ct=ct, cf=cf):
+                ctx = interp.ctx
+                o = JU.observe(interp, ct, cf, "visited")
+                if o is None:
+                    return
+                kinds = [JU.classify(o, s_, added) for s_, added in o.succ]
+                jumped = [s_ for (s_, added), k in zip(o.succ, kinds) if JU.is_exactly(added[-1][0], o.c) and s_.context.output.error is None] if o.succ else []
+                ctx.oblige("execution continues at the target only if it is a valid jump destination", z3.BoolVal(o.valid or not jumped))
+                ctx.oblige("a genuine JUMPDEST is never rejected", z3.BoolVal(not (o.valid and (o.raised is not None or "true-error" in kinds))))
+                ctx.oblige("jump continues at the JUMPDEST (or just after it)", z3.BoolVal(all(s_.pc in (JU.TARGET, JU.TARGET + 1) for s_ in jumped)))
+                if not o.valid and ct != "unsat":
+                    took = o.raised is not None or "true-error" in kinds or JU.JID in o.logged
+                    ctx.oblige("jump to an invalid destination ends that direction with InvalidJumpDestError (unless the loop bound cut it)", z3.BoolVal(took and not jumped))
+
+            out.append(Case(f"{PROP}/sevm.SEVM.jumpi", f"check(c)={ct},check(not c)={cf}", harness, replay=replay_jumps, sources=JU.SOURCES))
+
+    # --- JUMP / JUMPI arms of SEVM.run with a concrete (but arbitrary) target and condition
+    sf, fn, first = run_dispatch_chain()
+    for opname, opcode in (("JUMP", hs.OP_JUMP), ("JUMPI", hs.OP_JUMPI)):
+        conds = ("none",) if opname == "JUMP" else ("true", "false", "nonzero-word", "zero-word")
+        for cnd in conds:
+
+            def harness(interp, opname=opname, opcode=opcode, cnd=cnd):
+                ctx = interp.ctx
+                from contracts.common import mk_ex, mk_sevm
+
+                sevm = mk_sevm()
+                ex = mk_ex(sevm, bytes([opcode, 0]))
+                state = ex.st
+                marker = hb.HalmosBitVec(0xDEAD)
+                state.stack.append(marker)
+                if opname == "JUMPI":
+                    cv = {"true": hb.HalmosBool(True), "false": hb.HalmosBool(False), "nonzero-word": None, "zero-word": hb.HalmosBitVec(0)}[cnd]
+                    if cv is None:
+                        cv = mk_bv(ctx, "condword", "int")
+                        ctx.assume(cv._value.e != 0, cv._value.view[0] != 0)
+                    state.stack.append(cv)
+                target = mk_bv(ctx, "target", "int")
+                state.stack.append(target)
+                ex.fetch_instruction()
+                dests = GhostDests()
+                advanced = []
+
+                class Pgm:
+                    def valid_jumpdests(self):
+                        return dests
+
+                ex.pgm = Pgm()
+                interp.contracts["halmos.sevm:Exec.advance"] = lambda i, a, k: advanced.append(k.get("pc", a[1] if len(a) > 1 else None))
+                interp.externals[("contains", GhostDests)] = _ghost_dests_contains
+                insn = ex.insn
+                env = Env({"self": sevm, "ex": ex, "state": state, "insn": insn, "opcode": insn.opcode, "stack": hs.Worklist()}, None, hs.__dict__)
+                body = select_arm(interp, first, env)
+                kind, payload, _ = interp.exec_fragment(body, env, qual="halmos.sevm:SEVM.run#arm")
+                tv = iexpr(target._value)
+                valid = GhostDests.VALID(tv)
+                falls = cnd in ("false", "zero-word")
+                if falls:
+                    ctx.oblige("condition zero: falls through to the next instruction, target not validated as a jump", z3.BoolVal(kind == "continue" and advanced == [insn.next_pc] and env.lookup("next_ex") is ex), info={"kind": kind, "advanced": str(advanced)})
+                    return
+                if kind == "raise":
+                    ctx.oblige("InvalidJumpDestError only for an invalid target", z3.And(z3.BoolVal(isinstance(payload, InvalidJumpDestError)), z3.Not(valid)), info={"exc": type(payload).__name__})
+                    ctx.oblige("nothing advanced when the jump fails", z3.BoolVal(advanced == []))
+                    return
+                ctx.oblige("jump taken: arm ends with `continue` and the same state goes on", z3.BoolVal(kind == "continue" and len(advanced) == 1 and env.lookup("next_ex") is ex), info={"kind": kind})
+                ctx.oblige("jump taken only to a valid jump destination", valid)
+                if len(advanced) == 1:
+                    ctx.oblige("execution resumes just after the JUMPDEST", iexpr(advanced[0]) == tv + 1)
+                ctx.oblige("stack: operands consumed", z3.BoolVal(state.stack == [marker]))
+
+            out.append(Case(f"{PROP}/sevm.SEVM.run#{opname}", f"cond={cnd}", harness, replay=replay_jumps, sources=("halmos.sevm:SEVM.run",)))
+    return out
 
 
 # --------------------------------------------------------------------------------------
@@ -402,6 +545,6 @@ ASSUMPTIONS = [
     "Contract invariant `_fastcode` = concrete first chunk of `_code` is assumed in the scan proof (established by Contract.__init__, exercised only by the bounded stand-in)",
     "with symbolic bytes in the code only soundness (jumpdests subset of D_J under every valuation) is proved; completeness is proved for fully concrete code",
     "D_J is an uninterpreted predicate constrained by its Yellow-Paper defining equation at the positions the proof visits; termination of the scan is shown by the variant obligation pc' > pc",
-    "PUSH operand extraction, slices and the jump checks in sevm.py are covered by the bounded stand-in only (labelled bounded, never counted as proved)",
+    "PUSH operand extraction and slices are covered by the bounded stand-in only (labelled bounded, never counted as proved); the jump checks of sevm.py (JUMP arm, concrete JUMPI arm, SEVM.jumpi) are proved against an arbitrary valid-destination set, with Exec.check / create_branch / Exec.advance used through their contracts",
 ]
 TRUSTED = ["pyvc (this repository's verifier)", "z3 4.12.6 SMT semantics (LIA + UF + arrays)", "specs/dj.py (Yellow Paper 9.4.3 transcription)"]
